@@ -1,0 +1,9 @@
+//go:build verif
+
+package proxy
+
+import "go.minekube.com/gate/pkg/edition/java/config"
+
+// VerifConfigSnapshotC32 is Proxy.configSnapshot: the published configuration and the Lite route
+// generation that status requests read (verification harness only; no logic).
+func VerifConfigSnapshotC32(p *Proxy) (*config.Config, uint64) { return p.configSnapshot() }
